@@ -24,7 +24,27 @@ def array_bound(f, idx_node):
         return be["arr"][0], b
     if be["k"] == "str":
         return be.get("len", 0) + 1, b
+    if be["k"] == "ref" and be.get("dk") == "param":
+        # `const uint8_t buffer[42]`: the declared element count is the
+        # contract, valid as long as the parameter itself is never reassigned
+        for p in f.params:
+            if p["name"] == be["name"] and "parr" in p and not _param_reassigned(f, be["name"]):
+                return p["parr"], b
     return None
+
+
+def _param_reassigned(f, name):
+    c = f._cache.setdefault("param_reassigned", {})
+    if name not in c:
+        r = False
+        for bid, i in flow.all_events(f):
+            for lhs, var, op, rhs in flow.stores(f, i):
+                if lhs is not None:
+                    l = ex.skip(f, lhs)
+                    if f.exprs[l]["k"] == "ref" and f.exprs[l]["name"] == name:
+                        r = True
+        c[name] = r
+    return c[name]
 
 
 def subscripts(f):
@@ -73,7 +93,7 @@ def check_subscript(ctx, f, node, n, base, an=None):
     an = an or ctx.analysis(f)
     if an is None:
         raise AnalysisBroken("no analysis for %s" % f.name)
-    st = an.state_before(node)
+    st = an.state_before_expr(node)
     if st is None:
         return Verdict(node, n, None, None, "holds", "unreachable", base)
     ix = f.exprs[node]["c"][1]
